@@ -5,7 +5,8 @@ secure framing in both directions, and is scripted per connection.  It is scaffo
 interest with the *unpatched* controller code; the protocol oracle stays the Lean spec of C01/C05.
 
 per-connection verify modes:
-  ok | wrongid | badsig | err<step><code> | close<step> | http470 | hang | exc
+  ok | wrongid | badsig | err<step><code> | close<step> | http470 | hang | exc | oksubdrop
+  (`oksubdrop` completes pair-verify and then closes the connection at the first request of the new session)
   (`exc` answers M1 with a body that makes the controller's generator raise a non-HomeKit exception)
 """
 from __future__ import annotations
@@ -142,6 +143,9 @@ class Accessory:
         if not self.auto:
             return
         if target == "/characteristics" and method == "PUT":
+            if s.mode == "oksubdrop" and sum(1 for r in s.requests if r[1] != "/pair-verify") == 1:
+                # the accessory accepted the session but drops the connection at the first request on it
+                return t.peer_close()
             d = json.loads(body)
             for c in d["characteristics"]:
                 if "ev" in c:
